@@ -95,6 +95,69 @@ var schemaV2File, schemaV2Files = func() (protoreflect.FileDescriptor, *protoreg
 	return fd, files
 }()
 
+// Two synthetic proto files, registered globally at start-up: sim/users.proto
+// (service sim.shop.Users) and sim/orders.proto, which imports it (service
+// sim.shop.Orders, whose messages embed a User). A backend that advertises
+// Orders makes larking fetch both files - the second one as a dependency of
+// the first - and both carry a service.
+const (
+	svcSimUsers  = "sim.shop.Users"
+	svcSimOrders = "sim.shop.Orders"
+	svcSimBad    = "sim.shop.Bad"
+)
+
+func init() {
+	str := func(s string) *string { return &s }
+	i32 := func(i int32) *int32 { return &i }
+	httpGet := func(path string) *descriptorpb.MethodOptions {
+		o := &descriptorpb.MethodOptions{}
+		proto.SetExtension(o, annotations.E_Http, &annotations.HttpRule{Pattern: &annotations.HttpRule_Get{Get: path}})
+		return o
+	}
+	lbl, tStr, tMsg := descriptorpb.FieldDescriptorProto_LABEL_OPTIONAL.Enum(), descriptorpb.FieldDescriptorProto_TYPE_STRING.Enum(), descriptorpb.FieldDescriptorProto_TYPE_MESSAGE.Enum()
+	users := &descriptorpb.FileDescriptorProto{
+		Name: str("sim/users.proto"), Package: str("sim.shop"), Syntax: str("proto3"),
+		Dependency: []string{"google/api/annotations.proto"},
+		MessageType: []*descriptorpb.DescriptorProto{{Name: str("User"), Field: []*descriptorpb.FieldDescriptorProto{
+			{Name: str("id"), JsonName: str("id"), Number: i32(1), Label: lbl, Type: tStr},
+			{Name: str("name"), JsonName: str("name"), Number: i32(2), Label: lbl, Type: tStr},
+		}}},
+		Service: []*descriptorpb.ServiceDescriptorProto{{Name: str("Users"), Method: []*descriptorpb.MethodDescriptorProto{
+			{Name: str("GetUser"), InputType: str(".sim.shop.User"), OutputType: str(".sim.shop.User"), Options: httpGet("/sim/users/{id}")},
+		}}},
+	}
+	orders := &descriptorpb.FileDescriptorProto{
+		Name: str("sim/orders.proto"), Package: str("sim.shop"), Syntax: str("proto3"),
+		Dependency: []string{"google/api/annotations.proto", "sim/users.proto"},
+		MessageType: []*descriptorpb.DescriptorProto{{Name: str("Order"), Field: []*descriptorpb.FieldDescriptorProto{
+			{Name: str("id"), JsonName: str("id"), Number: i32(1), Label: lbl, Type: tStr},
+			{Name: str("buyer"), JsonName: str("buyer"), Number: i32(2), Label: lbl, Type: tMsg, TypeName: str(".sim.shop.User")},
+		}}},
+		Service: []*descriptorpb.ServiceDescriptorProto{{Name: str("Orders"), Method: []*descriptorpb.MethodDescriptorProto{
+			{Name: str("GetOrder"), InputType: str(".sim.shop.Order"), OutputType: str(".sim.shop.Order"), Options: httpGet("/sim/orders/{id}")},
+		}}},
+	}
+	// ... and a third one whose only HTTP rule names a field that does not
+	// exist: a backend that advertises it cannot be registered, and the refusal
+	// comes after the whole reflection exchange has succeeded
+	bad := &descriptorpb.FileDescriptorProto{
+		Name: str("sim/bad.proto"), Package: str("sim.shop"), Syntax: str("proto3"),
+		Dependency: []string{"google/api/annotations.proto", "sim/users.proto"},
+		Service: []*descriptorpb.ServiceDescriptorProto{{Name: str("Bad"), Method: []*descriptorpb.MethodDescriptorProto{
+			{Name: str("GetBad"), InputType: str(".sim.shop.User"), OutputType: str(".sim.shop.User"), Options: httpGet("/sim/bad/{no_such_field}")},
+		}}},
+	}
+	for _, fdp := range []*descriptorpb.FileDescriptorProto{users, orders, bad} {
+		fd, err := protodesc.NewFile(fdp, protoregistry.GlobalFiles)
+		if err != nil {
+			panic(err)
+		}
+		if err := protoregistry.GlobalFiles.RegisterFile(fd); err != nil {
+			panic(err)
+		}
+	}
+}
+
 // schemaResolver answers reflection lookups with the version of the
 // descriptors the backend currently runs.
 type schemaResolver struct{ p *svcProvider }
